@@ -45,7 +45,7 @@ def prove(plan, repo, tier):
             quals = mod.build(reg)
             if ment.get("functions"): quals = [q for q in quals if q in ment["functions"] or any(q.startswith(f) for f in ment.get("prefixes", []))]
             short = set(ment.get("expected_open", []))
-            kw = dict(timeout_ms=60000 if tier == "quick" else 180000)      # wall-clock backstops; the resource limits (deterministic) are what bounds a query; kw.update(plan.get("solver", {}))
+            kw = dict(timeout_ms=120000 if tier == "quick" else 240000)      # wall-clock backstops; the resource limits (deterministic) are what bounds a query; kw.update(plan.get("solver", {}))
             obs, undecided, th = verify(reg, quals, verbose=False, thorough=(tier == "thorough"), short=short, **kw)
         except Exception as e:
             out["engine_errors"].append(f"{modname}: {type(e).__name__}: {e}\n{traceback.format_exc()}")
